@@ -26,7 +26,9 @@ fn gen_attr_value(t: &mut Tape) -> CVal {
 }
 
 pub fn case(tape: &[u32]) -> CaseOutcome {
-    let mut t = Tape::new(tape);
+    let (aux, main) = split_tape(tape);
+    let mut t = Tape::new(&aux);
+    let mut gt = Tape::new(&main);
     let source = pysrc::gen_source(&mut t);
     let tree = pysrc::parse(&source);
     let index = TreeIndex::new(&tree);
@@ -86,7 +88,7 @@ pub fn case(tape: &[u32]) -> CaseOutcome {
         cfg.risk = 8;
         cfg.gnode_globals = model.nodes.len().min(1 + t.choose(3));
         cfg.globals = false;
-        let program = make_program(&mut t, &cfg);
+        let program = make_program(&mut gt, &cfg);
         let dsl = program.printed.text.clone();
         let mut globals = program.gen.globals.clone();
         for i in 0..cfg.gnode_globals {
@@ -192,7 +194,7 @@ pub fn case(tape: &[u32]) -> CaseOutcome {
 }
 
 pub fn spec(tier: &str) -> Spec {
-    let mut s = Spec::new("C09", tier, 4_000, 50_000, 900);
+    let mut s = Spec::new("C09", tier, 4_000, 50_000, 1500);
     s.rule = "histories on one Graph: optionally pre-populated through the public API (1-5 nodes, attributed nodes and edges), then 1-3 execute_into calls, each with its own generated collision-heavy program (shared anchor nodes, repeated edge statements, re-assigned attributes; lazy calls stay in the order-insensitive fragment), mode chosen per call, and 1-3 of the graph's existing nodes passed back in as GraphNode globals; one tree per history. Oracle: the reference interpreter advances a map/set model of the graph from the state before the call; after a successful call the observed graph must be isomorphic to the model with all pre-existing nodes fixed in place (so every existing node, edge and attribute value is intact and new nodes are numbered after them) and iter_edges must be strictly ascending; a call the model says must fail must fail; after a failed call only structural invariants are checked and the model is re-synchronised. Non-trivial: one edge created by >=2 statements/matches, or a later call (or a call on a pre-populated attributed edge) that re-creates an existing edge or re-assigns an attribute. Distinct = fingerprint of the whole history.".into();
     s.assumptions = vec!["all calls of one history use the same tree (syntax-node references are resolved through one tree index)".into(), "graph state after a failed execute_into is unspecified beyond structural consistency".into()];
     s
